@@ -73,6 +73,18 @@ CLAIMS = {
              "artefact cycles (listed with reasons in the evidence). Termination only; no time bound.",
         technique="termination obligations (measures + heap-shape writer obligations) over call-graph SCCs (pyvc mode T)",
         design="3/C20"),
+    "C18": dict(
+        text="_get_source_files: over an uninterpreted file system, the nested loops compute exactly the sequence "
+             "[d/f | d in source_dirs, f in listdir(d), isfile, suffix regex accepts f, d/f not excluded, no excluded "
+             "suffix] (loop invariants with fold specifications, any set/listing order); _add_source_dirs: runs only "
+             "for source_dirs == {root}, result is the fold over os.walk of directories holding a source file and not "
+             "excluded. Suffix regex: anchoring and escaping are structural obligations, acceptance is decided by "
+             "finite enumeration against the property's suffix list. serve_initialize's step order is structural. "
+             "Real directory trees x configurations x {file, command line} are the bounded stand-in.",
+        note="File-system functions uninterpreted; order-independence of the resulting set is a stated meta-lemma; "
+             "_resolve_globs_in_paths and pathlib globbing only covered natively (bounded).",
+        technique="VC generation from the Python AST (pyvc) + z3/cvc5 with fold specifications; finite enumeration with the real re",
+        design="3/C18"),
 }
 
 NOT_APPLICABLE = {
